@@ -1,6 +1,358 @@
-//! C08 — not implemented yet.
+//! C08 — Running out of memory budget never changes an answer.
+//!
+//! Generator: 1–2 tables of 300–5 000 rows (compact specs: per-column type,
+//! domain size, NULL share; BIGINT/INTEGER/DOUBLE/VARCHAR/DATE/BOOLEAN) in a
+//! random batch layout (1–17 batches, so sorts produce 1, 2..8 and >8 runs);
+//! statements with multi-key sorts over every key type (DESC, NULLS FIRST/LAST),
+//! top-k (`ORDER BY <all columns> LIMIT k [OFFSET m]`), joins of every kind
+//! (inner/left/right/full/semi/anti/cross) over every key type, grouped / global /
+//! DISTINCT aggregates, COUNT(DISTINCT); memory limits log-uniform in
+//! [16 B, 64 MB] plus limits placed around the size of the data;
+//! `spill_partitions ∈ {1,2,64}`; a private spill directory per run.
+//! Oracle: the answer under each limit equals the answer of the same context
+//! with the default (1 GiB) budget — as a multiset, and as an ORDER BY key
+//! sequence — or the limited run fails with an explicit error.
+//! `refsql` is evaluated only to annotate a failure message.
 use super::Property;
+use crate::data::*;
+use crate::engine::*;
+use crate::runner::*;
+use proptest::prelude::*;
+use query_engine::{ExecutionConfig, ExecutionContext};
+use serde::{Deserialize, Serialize};
+
+#[path = "cfgdiff_util.rs"]
+mod util;
+use util::*;
+
+#[derive(Clone, Debug, Serialize, Deserialize)]
+pub struct Case {
+    pub tables: Vec<TableSpec>,
+    /// batch cut selectors per table
+    pub cut_sels: Vec<Vec<u16>>,
+    pub stmt: Stmt,
+    /// memory limits in bytes
+    pub limits: Vec<u64>,
+    pub spill_partitions: usize,
+}
+
+pub struct SpillDiff;
+
+fn tables_profile(tier: Tier) -> TablesProfile {
+    TablesProfile {
+        max_tables: 2,
+        min_rows: 300,
+        max_rows: tier.pick(2500, 5000),
+        max_cols: 4,
+        types: vec![ColType::Int, ColType::Int, ColType::Int32, ColType::Double, ColType::Str, ColType::Str, ColType::Date, ColType::Bool],
+        domains: vec![1, 2, 3, 7, 20, 100, 400, 3000],
+        null_pcts: vec![0, 0, 10, 40],
+        sparse: false,
+        // a run / merge buffer holds 8192 rows: go beyond it now and then
+        big_rows: Some((8200, tier.pick(9500, 20000))),
+    }
+}
+
+fn opts() -> GenOpts {
+    GenOpts {
+        order_pct: 60,
+        limit_pct: 40,
+        max_join_rows: 40_000,
+        w_scan: 30,
+        w_join: 25,
+        w_agg: 30,
+        w_distinct: 15,
+        // the NULL-group-key finding (C01 agg-null-group-key) would otherwise
+        // dominate: the spilled aggregate keeps the NULL group, the fused one
+        // drops it; keep a minority of such cases
+        null_group_keys_pct: 15,
+        ..GenOpts::default()
+    }
+}
+
+fn limit_from(sel: u16) -> u64 {
+    // log-uniform in [2^4, 2^26]
+    let e = 4.0 + (sel as f64 / 65535.0) * 22.0;
+    2f64.powf(e) as u64
+}
+
+fn data_bytes(t: &TableSpec) -> u64 {
+    (t.n_rows * t.cols.len() * 8) as u64
+}
+
+fn strategy(tier: Tier) -> BoxedStrategy<Case> {
+    let n_limits = tier.pick(2usize, 5usize);
+    (
+        tables_spec_strategy(tables_profile(tier)),
+        proptest::collection::vec(any::<u16>(), 0..80),
+        proptest::collection::vec(
+            (prop_oneof![Just(0usize), Just(1), Just(2), Just(4), Just(8), Just(16)], proptest::collection::vec(any::<u16>(), 16)),
+            2,
+        ),
+        proptest::collection::vec(any::<u16>(), n_limits),
+        proptest::collection::vec(prop_oneof![Just(0.02f64), Just(0.1), Just(0.3), Just(0.6), Just(1.0), Just(1.3), Just(2.5)], 2),
+        prop_oneof![Just(1usize), Just(2), Just(64)],
+    )
+        .prop_map(|(tables, tape, cuts, lims, factors, spill_partitions)| {
+            let stmt = gen_stmt(tape, &tables, &opts());
+            let cut_sels: Vec<Vec<u16>> = cuts.into_iter().take(tables.len()).map(|(n, s)| s.into_iter().take(n).collect()).collect();
+            let mut limits: Vec<u64> = lims.into_iter().map(limit_from).collect();
+            // two limits placed relative to the size of the first table
+            for factor in factors {
+                limits.push(((data_bytes(&tables[0]) as f64) * factor) as u64 + 16);
+            }
+            Case { tables, cut_sels, stmt, limits, spill_partitions }
+        })
+        .boxed()
+}
+
+struct Run {
+    result: RunResult,
+    spilled: usize,
+}
+
+fn run(c: &Case, tables: &[Table], sql: &str, cfg: ExecutionConfig) -> Run {
+    let mut ctx = ExecutionContext::with_config(cfg);
+    for (i, t) in tables.iter().enumerate() {
+        let cuts = cuts_from(c.cut_sels.get(i).map(|v| v.as_slice()).unwrap_or(&[]), t.rows.len());
+        register_mem(&mut ctx, t, &cuts);
+    }
+    let result = run_sql(&ctx, sql);
+    Run { result, spilled: ctx.memory_pool().spilled() }
+}
+
+fn has(c: &Case, f: &str) -> bool {
+    c.stmt.features.iter().any(|x| x == f)
+}
+fn has_prefix(c: &Case, p: &str) -> bool {
+    c.stmt.features.iter().any(|x| x.starts_with(p))
+}
+
+/// Rows of a variant of the statement under the default budget (used only to
+/// evaluate the data condition of a known-finding signature).
+fn unlimited_rows(c: &Case, tables: &[Table], q: &crate::sqlast::Query) -> Option<Rows> {
+    let tmp = TempDir::new("c08k");
+    let cfg = ExecutionConfig::default().with_spill_path(tmp.path().join("u"));
+    run(c, tables, &q.sql(), cfg).result.ok()
+}
+
+/// Known-finding signatures (see known_findings.json, property C08). Each is a
+/// statement shape + a configuration/data condition; anything else is a violation.
+fn classify(c: &Case, tables: &[Table], base: &Rows, got: &Rows, spilled: usize) -> Option<&'static str> {
+    use crate::sqlast::*;
+    let q = &c.stmt.query;
+    let f = |x: &str| has(c, x);
+    let (only_base, only_got) = sym_diff(base, got);
+
+    // (1) top-k fused into ExternalSortExec: the spilled path ignores `fetch`
+    if spilled > 0 && f("limit") && !f("offset") {
+        if let Some(k) = q.limit {
+            if got.len() as u64 > k && base.len() as u64 <= k {
+                return Some("spill-sort-fetch-ignored");
+            }
+        }
+    }
+    // (2) spilled INNER join whose key type extract_join_key does not know
+    if spilled > 0 && f("join_inner") && (f("joinkey_Date") || f("joinkey_Bool")) {
+        let loses_only = only_got.is_empty() || f("shape_agg") || f("limit");
+        if loses_only {
+            return Some("spill-join-key-type-dropped");
+        }
+    }
+    // (3) fused streaming aggregate over an outer join aborts on its group budget and
+    //     re-executes the join, whose second round never emits the unmatched build rows
+    if f("group_by") && !f("count_distinct") && (f("join_left") || f("join_right") || f("join_full")) {
+        let mut bare = q.clone();
+        bare.order_by.clear();
+        bare.limit = None;
+        bare.offset = None;
+        if let SetExpr::Select(s) = &mut bare.body {
+            s.having = None;
+        }
+        if unlimited_rows(c, tables, &bare).map(|r| r.len() > 64).unwrap_or(false) {
+            return Some("outer-join-reexecuted-loses-unmatched");
+        }
+    }
+    // (4) MIN/MAX(VARCHAR) above a join is NULL on the in-memory path (C01 finding);
+    //     the spilled aggregate reads the strings back from Parquet and gets it right
+    if f("minmax_str") && has_prefix(c, "join_") {
+        if let SetExpr::Select(s) = &q.body {
+            for (j, it) in s.items.iter().enumerate() {
+                let is_minmax = matches!(it, Item::Expr(Expr::Agg { f: AggF::Min | AggF::Max, .. }, _));
+                if is_minmax && only_base.iter().any(|r| r.get(j).map(|v| v.is_null()).unwrap_or(false)) && only_got.iter().any(|r| matches!(r.get(j), Some(Value::Str(_)))) {
+                    return Some("agg-minmax-string-after-join");
+                }
+            }
+        }
+    }
+    // (5)/(6) spilled sort: the k-way merge
+    if spilled > 0 && f("order_by") {
+        let mut bare = q.clone();
+        bare.order_by.clear();
+        bare.limit = None;
+        bare.offset = None;
+        // the sort's input: the statement without ORDER BY / LIMIT / OFFSET
+        let sort_input = unlimited_rows(c, tables, &bare).unwrap_or_default();
+        if sort_input.len() > 8192 {
+            return Some("spill-merge-over-8192-rows");
+        }
+        for (k, &j) in q.order_by.iter().zip(c.stmt.order_keys.iter()) {
+            // placement the merge implements: NULLs last for ASC, first for DESC
+            let col_has_null = sort_input.iter().any(|r| r.get(j).map(|v| v.is_null()).unwrap_or(false));
+            let col_is_bool = sort_input.iter().any(|r| matches!(r.get(j), Some(Value::Bool(_))));
+            if (col_has_null && k.nulls_first.unwrap_or(false) != k.desc) || col_is_bool {
+                return Some("spill-merge-null-order-and-types");
+            }
+        }
+    }
+    None
+}
+
+impl Check for SpillDiff {
+    type Case = Case;
+    fn name(&self) -> &'static str {
+        "spill_differential"
+    }
+    fn rule(&self) -> &'static str {
+        "the unlimited run answered, and at least one memory-limited run of the same statement really spilled (MemoryPool::spilled() > 0) and returned an answer (which was compared)"
+    }
+    fn cases(&self, tier: Tier) -> u32 {
+        tier.pick(500, 8000)
+    }
+    fn max_shrink_iters(&self) -> u32 {
+        300
+    }
+    fn strategy(&self, tier: Tier) -> BoxedStrategy<Case> {
+        strategy(tier)
+    }
+    fn test(&self, c: &Case, obs: &mut Obs) -> Verdict {
+        let tables: Vec<Table> = c.tables.iter().map(|t| t.expand()).collect();
+        let sql = c.stmt.query.sql();
+        for f in &c.stmt.features {
+            obs.label(format!("feat:{}", f));
+        }
+        obs.sample(serde_json::json!({"sql": sql, "limits": c.limits, "rows": c.tables.iter().map(|t| t.n_rows).collect::<Vec<_>>() }));
+        let tol = if c.stmt.uses_avg { 1e-9 } else { 0.0 };
+        let tmp = TempDir::new("c08");
+        let base_cfg = ExecutionConfig::default().with_spill_path(tmp.path().join("unlimited"));
+        let base = run(c, &tables, &sql, base_cfg);
+        let base_rows = match base.result {
+            Ok(r) => r,
+            Err(e) => {
+                obs.label(format!("unlimited_error:{}", short_err(&e)));
+                return Verdict::Pass;
+            }
+        };
+        if base.spilled > 0 {
+            obs.label("unlimited_run_spilled");
+        }
+        if base_rows.len() > 300_000 {
+            return Verdict::Discard("answer_too_large".into());
+        }
+        let mut known: Option<(String, String)> = None;
+        for (li, &limit) in c.limits.iter().enumerate() {
+            let cfg = ExecutionConfig::default()
+                .with_memory_limit(limit as usize)
+                .with_spill_path(tmp.path().join(format!("l{}", li)))
+                .with_spill_partitions(c.spill_partitions);
+            let r = run(c, &tables, &sql, cfg);
+            match r.result {
+                Err(e) => {
+                    obs.label(format!("limited_error:{}", short_err(&e)));
+                    if is_panic(&e) {
+                        obs.label("limited_panic");
+                    }
+                }
+                Ok(rows) => {
+                    if r.spilled > 0 {
+                        obs.label("spilled_and_answered");
+                        obs.nontrivial(true);
+                        for f in ["shape_scan", "shape_join", "shape_agg", "shape_distinct", "order_by", "limit"] {
+                            if has(c, f) {
+                                obs.label(format!("spilled:{}", f));
+                            }
+                        }
+                    } else {
+                        obs.label("limited_no_spill");
+                    }
+                    if let Err(why) = same_answer(&base_rows, &rows, &c.stmt.order_keys, tol) {
+                        let msg = format!(
+                            "memory_limit={} B (spill_partitions={}, spilled {} B): {}\n sql: {}\n unlimited answer ({} rows) vs limited answer ({} rows):\n{}\n {}\n tables:\n{}\n batch cuts: {:?}",
+                            limit,
+                            c.spill_partitions,
+                            r.spilled,
+                            why,
+                            sql,
+                            base_rows.len(),
+                            rows.len(),
+                            diff_summary(&base_rows, &rows, 8),
+                            third_opinion(&tables, &c.stmt.query, &[("unlimited", &base_rows), ("limited", &rows)], tol),
+                            fmt_specs(&c.tables),
+                            c.tables.iter().enumerate().map(|(i, t)| cuts_from(c.cut_sels.get(i).map(|v| v.as_slice()).unwrap_or(&[]), t.n_rows)).collect::<Vec<_>>()
+                        );
+                        match classify(c, &tables, &base_rows, &rows, r.spilled) {
+                            Some(id) => {
+                                obs.label(format!("known:{}", id));
+                                known.get_or_insert((id.to_string(), msg));
+                            }
+                            None => return Verdict::Fail(msg),
+                        }
+                    }
+                }
+            }
+        }
+        match known {
+            Some((id, msg)) => Verdict::Known { id, msg },
+            None => Verdict::Pass,
+        }
+    }
+}
 
 pub fn property() -> Property {
-    Property { id: "C08", level: "exploration", assumptions: &[], checks: vec![] }
+    Property {
+        id: "C08",
+        level: "exploration",
+        assumptions: &[
+            "'unlimited' is the engine's default budget (1 GiB), which none of the generated inputs (<= 5 000 rows per table, joins bounded to ~40 000 rows) approaches",
+            "an explicit engine error under a memory limit is an allowed outcome; a panic is labelled (C29 owns it)",
+            "doubles are multiples of 0.25 so sums are exact under any association order; AVG results are compared with relative tolerance 1e-9",
+            "LIMIT/OFFSET are generated only with an ORDER BY over all output columns, so the statement has one right answer",
+        ],
+        checks: vec![Box::new(SpillDiff)],
+    }
+}
+
+/// Triage aid (`check --worker c08dbg <replay.json> <limit-bytes> ["other sql"]`):
+/// prints the physical plan and the answers without / with the memory limit.
+pub fn debug(args: &[String]) {
+    let doc: serde_json::Value = serde_json::from_str(&std::fs::read_to_string(&args[0]).expect("read")).expect("json");
+    let c: Case = serde_json::from_value(doc["case"].clone()).expect("case");
+    let limit: usize = args[1].parse().expect("limit");
+    let sql = args.get(2).cloned().unwrap_or_else(|| c.stmt.query.sql());
+    let tables: Vec<Table> = c.tables.iter().map(|t| t.expand()).collect();
+    println!("SQL: {}\n{}", sql, fmt_specs(&c.tables));
+    let tmp = TempDir::new("c08dbg");
+    for (name, cfg) in [
+        ("unlimited", ExecutionConfig::default().with_spill_path(tmp.path().join("u"))),
+        ("limited", ExecutionConfig::default().with_memory_limit(limit).with_spill_path(tmp.path().join("l")).with_spill_partitions(c.spill_partitions)),
+    ] {
+        let mut ctx = ExecutionContext::with_config(cfg);
+        for (i, t) in tables.iter().enumerate() {
+            let cuts = cuts_from(c.cut_sels.get(i).map(|v| v.as_slice()).unwrap_or(&[]), t.rows.len());
+            register_mem(&mut ctx, t, &cuts);
+        }
+        if name == "unlimited" {
+            match ctx.physical_plan(&sql) {
+                Ok(p) => println!("--- physical plan\n{}", query_engine::physical::display_plan(p.as_ref(), 0)),
+                Err(e) => println!("plan error: {}", e),
+            }
+        }
+        match run_sql(&ctx, &sql) {
+            Ok(mut r) => {
+                canon_sort(&mut r);
+                println!("--- {} ({} rows, spilled {} B)\n{}", name, r.len(), ctx.memory_pool().spilled(), fmt_rows(&r, 25));
+            }
+            Err(e) => println!("--- {} error: {}", name, e),
+        }
+    }
 }
